@@ -12,6 +12,7 @@ import (
 	"sync"
 	"time"
 
+	"github.com/wmnsk/go-pfcp/ie"
 	"github.com/wmnsk/go-pfcp/message"
 
 	"verif/harness/internal/agent"
@@ -195,6 +196,7 @@ func e2eRetransWorker(args []string) error {
 			return rtPlan{"kth", 1 + rng.Intn(p.N+1)}
 		}
 	}
+	gapDone := false // the first series of heartbeat rounds always has a forced gap round
 	// drive the heartbeat rounds of an established association of peer `name`; ends with the peer going silent
 	hbRounds := func(name string, withSession bool) error {
 		peer := w.Peer(name)
@@ -203,6 +205,72 @@ func e2eRetransWorker(args []string) error {
 
 		if withSession {
 			w.Estab(name, simpleSession(cp, ue, 1))
+		}
+
+		// one round in which the answer arrives in the gap between the k-th time-out and the retransmission that follows
+		// it (the requester is held at the scheduling point behind its timer while the peer answers): the request counts
+		// as answered - at most the retransmission already decided on leaves, and the peer is not given up
+		if (!gapDone || rng.Intn(2) == 0) && p.N >= 1 && !w.Died {
+			gapDone = true
+			k := 1 + rng.Intn(p.N)
+			have := len(peer.Requests())
+			before := w.TeardownCount(name)
+			setCur(rtPlan{"gap", k})
+			_ = w.Agent.Gate("conn.req.timeout", true)
+
+			d, ok := nextReq(peer, have, 5*I+2*time.Second)
+			if !ok {
+				_ = w.Agent.Gate("conn.req.timeout", false)
+				w.ReleaseParked()
+
+				return fail("no heartbeat from the agent")
+			}
+
+			setCur(rtPlan{"kth", 1}) // the plan of this request is fixed; the heartbeats that follow are answered at once
+
+			prefix := fmt.Sprintf("%s %d ", peer.LocalAddr(), d.Seq)
+			held := 0
+
+			for j := 1; j <= k; j++ {
+				held = w.WaitParked("conn.req.timeout", prefix, j, time.Duration(8)*T+2*time.Second)
+				if held == 0 {
+					break
+				}
+
+				if j < k {
+					_ = w.Agent.Go(held)
+				}
+			}
+
+			if held != 0 {
+				_ = peer.Send(message.NewHeartbeatResponse(d.Seq, ie.NewRecoveryTimeStamp(peer.TS)))
+				time.Sleep(10 * time.Millisecond)
+			}
+
+			_ = w.Agent.Gate("conn.req.timeout", false)
+
+			if held != 0 {
+				_ = w.Agent.Go(held)
+			}
+
+			w.ReleaseParked()
+
+			if held != 0 {
+				time.Sleep(time.Duration(p.N-k+1)*T + T + T/2) // a requester that missed the answer goes on until its budget is used up
+				dead := w.TeardownCount(name) > before
+				w.Retrans(name, "hb", d.Seq, txOf(peer, d.Seq, message.MsgTypeHeartbeatRequest), "gap", k, dead, p.N, p.TMs)
+				sum.Stats["round_gap"]++
+
+				if dead {
+					if withSession {
+						w.RecordLost(name, "given up although answered")
+					}
+
+					return nil
+				}
+			} else {
+				sum.Stats["round_gap_nogate"]++ // hooks absent or moved: no forced gap, nothing recorded
+			}
 		}
 
 		for i := 0; i < 3+rng.Intn(3) && !w.Died; i++ {
@@ -448,6 +516,17 @@ func e2eRetransWorker(args []string) error {
 				w.P4.Stop()
 			} else {
 				w.Bess.Stop()
+			}
+
+			if w.P4 == nil {
+				// BESS: the first attempt after the loss is judged by what the harness knows - it closed the server and every
+				// connection of the agent 300 ms ago - and not by the agent's own view, which is asked only afterwards (asking
+				// makes the agent look at its channel, and a channel that was merely parked would start to reconnect)
+				time.Sleep(300 * time.Millisecond)
+
+				w.ConnTruth = "down"
+				w.Assoc(fmt.Sprintf("c%d", round))
+				w.ConnTruth = ""
 			}
 
 			if !waitConn(false, true) {
